@@ -90,7 +90,10 @@ def execute(sc, ctx):
     node = ops.KNode(sb, text, parser=sc["parser"], policy=sc["policy"], renames_text=sc["renames"])
     done = ops.run_history(node, sc["ops"], sc["hand"], ctx, None)
     k = node.k
-    v1 = ops.values(k)
+    # schedule dimension: in half of the runs the first write happens "cold" (before the harness reads any value), see C10
+    cold = bool(sc["hash_salt"] & 2)
+    v1 = None if cold else ops.values(k)
+    ctx.counters["probe:cold-write" if cold else "probe:warm-write"] += 1
     inj = ops.injected(k)
     stratum = "injection-prone" if inj else "injection-free"
     if inj:
@@ -107,6 +110,8 @@ def execute(sc, ctx):
             return
         b1 = open(f, encoding="utf-8").read()
         key.append(b1)
+        if v1 is None:
+            v1 = ops.values(k)
         n2 = node.twin()
         k2 = n2.k
         try:
